@@ -45,12 +45,122 @@ def run(ck: Check, repo: Repo) -> None:
     _clone_overrides(ck, repo)
 
 
+class _Roles:
+    """The locals of a preserve function, identified by what they are bound to (never by their spelling).  Only the two
+    parameters (old network, new network) are taken by position; every other name is computed:
+      key / param : the two targets of the loop `for K, P in <new>.named_parameters()`
+      table       : locals bound to dict(<old>.named_parameters())
+      old_param   : locals bound to table[key]
+      old_size    : locals bound to <old_param | table[key]>[.data].size() / .shape
+      new_size    : locals bound to param[.data].size() / .shape"""
+
+    def __init__(self, fn: Fn):
+        self.old_p, self.new_p = fn.named_params[0], fn.named_params[1]
+        self.key: Optional[str] = None
+        self.param: Optional[str] = None
+        self.table: Set[str] = set()
+        self.old_param: Set[str] = set()
+        self.old_size: Set[str] = set()
+        self.new_size: Set[str] = set()
+        for n in walk_no_nested(fn.node):
+            if isinstance(n, ast.For) and isinstance(n.iter, ast.Call) and last_attr(n.iter) == "named_parameters" and dotted(n.iter.func.value) == self.new_p \
+                    and isinstance(n.target, ast.Tuple) and len(n.target.elts) == 2 and all(isinstance(x, ast.Name) for x in n.target.elts) and self.key is None:
+                self.key, self.param = n.target.elts[0].id, n.target.elts[1].id
+        binds: List[Tuple[str, ast.AST]] = []
+        for n in walk_no_nested(fn.node):
+            if isinstance(n, ast.Assign) and len(n.targets) == 1 and isinstance(n.targets[0], ast.Name):
+                binds.append((n.targets[0].id, n.value))
+            elif isinstance(n, ast.AnnAssign) and isinstance(n.target, ast.Name) and n.value is not None:
+                binds.append((n.target.id, n.value))
+        for name, v in binds:
+            if isinstance(v, ast.Call) and call_name(v) == "dict" and len(v.args) == 1 and isinstance(v.args[0], ast.Call) \
+                    and last_attr(v.args[0]) == "named_parameters" and dotted(v.args[0].func.value) == self.old_p:
+                self.table.add(name)
+        for name, v in binds:
+            if self.is_old_entry(v):
+                self.old_param.add(name)
+        for name, v in binds:
+            base = self._sized(v)
+            if base is None:
+                continue
+            if isinstance(base, ast.Name) and base.id == self.param:
+                self.new_size.add(name)
+            elif (isinstance(base, ast.Name) and base.id in self.old_param) or self.is_old_entry(base):
+                self.old_size.add(name)
+
+    def is_old_entry(self, e: ast.AST) -> bool:
+        """table[key]"""
+        return isinstance(e, ast.Subscript) and isinstance(e.value, ast.Name) and e.value.id in self.table \
+            and isinstance(e.slice, ast.Name) and e.slice.id == self.key
+
+    @staticmethod
+    def _sized(v: ast.AST) -> Optional[ast.AST]:
+        """X for X.size() / X.data.size() / X.shape / X.data.shape"""
+        if isinstance(v, ast.Call) and isinstance(v.func, ast.Attribute) and v.func.attr == "size" and not v.args and not v.keywords:
+            b = v.func.value
+        elif isinstance(v, ast.Attribute) and v.attr == "shape":
+            b = v.value
+        else:
+            return None
+        if isinstance(b, ast.Attribute) and b.attr == "data":
+            b = b.value
+        return b
+
+    def is_rank_of_param(self, e: ast.AST) -> bool:
+        """len(param[.data].size()) / len(param.shape) / param.dim() / param.ndim"""
+        if isinstance(e, ast.Call) and call_name(e) == "len" and len(e.args) == 1:
+            b = self._sized(e.args[0])
+            return isinstance(b, ast.Name) and b.id == self.param
+        return False
+
+    def sizes_equal(self, a: ast.AST) -> Optional[bool]:
+        """True for `old_size == new_size`, False for `old_size != new_size` (either order), None otherwise."""
+        if isinstance(a, ast.Compare) and len(a.ops) == 1 and isinstance(a.ops[0], (ast.Eq, ast.NotEq)) \
+                and isinstance(a.left, ast.Name) and isinstance(a.comparators[0], ast.Name):
+            l, r = a.left.id, a.comparators[0].id
+            if (l in self.old_size and r in self.new_size) or (l in self.new_size and r in self.old_size):
+                return isinstance(a.ops[0], ast.Eq)
+        return None
+
+    def is_name_or_shape_test(self, a: ast.AST) -> bool:
+        """The conjunct consults the old lookup table, one of the two sizes, or the rank of the new parameter:
+        these are the filters 'by name and shape' the property allows."""
+        for x in ast.walk(a):
+            if isinstance(x, ast.Name) and x.id in (self.table | self.old_size | self.new_size):
+                return True
+            if self.is_rank_of_param(x):
+                return True
+        return False
+
+    def is_size_pair(self, names: List[str]) -> bool:
+        return len(names) == 2 and ((names[0] in self.old_size and names[1] in self.new_size) or (names[1] in self.old_size and names[0] in self.new_size))
+
+    def canonical_text(self, a: ast.AST) -> str:
+        """Text of a with every role-bearing local written under its role's name (so that reports and the construct key of a
+        finding do not depend on how the function spells its locals; identity on the tree the names were taken from)."""
+        import copy
+        m: Dict[str, str] = {}
+        for names, canon in ((self.table, "old_net_dict"), (self.old_param, "old_param"), (self.old_size, "old_size"), (self.new_size, "new_size")):
+            for x in names:
+                m[x] = canon
+        if self.key:
+            m[self.key] = "key"
+        if self.param:
+            m[self.param] = "param"
+        t = copy.deepcopy(a)
+        for x in ast.walk(t):
+            if isinstance(x, ast.Name) and x.id in m:
+                x.id = m[x.id]
+        return ast.unparse(t)
+
+
 def _preserve_common(ck: Check, repo: Repo, fn: Fn, rule: str) -> None:
     """Structure shared by both preserve functions."""
     params = fn.named_params
     old_p, new_p = params[0], params[1]
     cfg = CFG(fn.node)
     tb = TermBuilder(repo, fn, cfg=cfg, depth=0)
+    roles = _Roles(fn)
     all_loops = [n for n in cfg.live_nodes() if n.kind == "for"]
     loops = [n for n in all_loops if isinstance(n.ast.iter, ast.Call) and last_attr(n.ast.iter) == "named_parameters"]
     ok = len(loops) == 1 and dotted(loops[0].ast.iter.func.value) == new_p
@@ -66,8 +176,8 @@ def _preserve_common(ck: Check, repo: Repo, fn: Fn, rule: str) -> None:
     ok = False
     for n in whole:
         lt, rt = tb.term(n.ast.targets[0].value, n), tb.term(n.ast.value, n)
-        g = [(ast.unparse(a), pol) for gg, pol, _ in cfg.guards_at(n) for a, pol in conjuncts(gg, pol)]
-        eq = any("old_size == new_size" in a and pol for a, pol in g) or any("old_size != new_size" in a and not pol for a, pol in g)
+        g = [(roles.sizes_equal(a), pol) for gg, pol, _ in cfg.guards_at(n) for a, pol in conjuncts(gg, pol)]
+        eq = any(same is not None and same == pol for same, pol in g)
         ok = _from(tb, lt, new_p) and _from(tb, rt, old_p) and not _from(tb, rt, new_p) and eq
         ck.ob(rule, fn, n.ast, ok, f"{fn.name}: equal sizes -> the new parameter receives the old parameter's data (old -> new)")
     ck.ob(rule, fn, fn.node, bool(whole), f"{fn.name}: has a whole-tensor copy for unchanged shapes", construct=f"{fn.name}: whole copy")
@@ -107,10 +217,9 @@ def _preserve_common(ck: Check, repo: Repo, fn: Fn, rule: str) -> None:
     for n in whole:
         for gg, pol, _ in cfg.guards_at(n):
             for a, apol in conjuncts(gg, pol):
-                t = ast.unparse(a)
-                if "old_net_dict" in t or "old_size" in t or "new_size" in t or "len(param.data.size())" in t:
+                if roles.is_name_or_shape_test(a):
                     continue
-                wextra.add(("" if apol else "not ") + t)
+                wextra.add(("" if apol else "not ") + roles.canonical_text(a))
     for e in sorted(wextra) or [None]:
         ck.ob(rule, fn, whole[0].ast if whole else fn.node, e is None,
               f"{fn.name}: a parameter whose shape did not change is carried over whatever its name",
@@ -123,10 +232,9 @@ def _preserve_common(ck: Check, repo: Repo, fn: Fn, rule: str) -> None:
     for n in sliced:
         for gg, pol, _ in cfg.guards_at(n):
             for a, apol in conjuncts(gg, pol):
-                t = ast.unparse(a)
-                if "old_net_dict" in t or "old_size" in t or "new_size" in t or "len(param.data.size())" in t:
+                if roles.is_name_or_shape_test(a):
                     continue
-                extra.add(("" if apol else "not ") + t)
+                extra.add(("" if apol else "not ") + roles.canonical_text(a))
     for e in sorted(extra) or [None]:
         ck.ob(rule, fn, fn.node, e is None,
               f"{fn.name}: no filter other than name and shape decides whether a resized parameter keeps its common range",
@@ -172,6 +280,7 @@ def _preserve_slices(ck: Check, repo: Repo, fn: Fn) -> None:
     cfg = CFG(fn.node)
     tb = TermBuilder(repo, fn, cfg=cfg, depth=0)
     old_p, new_p = fn.named_params[0], fn.named_params[1]
+    roles = _Roles(fn)
     sliced = [n for n in cfg.live_nodes() if n.kind == "stmt" and isinstance(n.ast, ast.Assign) and isinstance(n.ast.targets[0], ast.Subscript)]
     ck.floor("C04.1", len(sliced), 1, "sliced copy in preserve_parameters", fn=fn)
     for n in sliced:
@@ -196,7 +305,7 @@ def _preserve_slices(ck: Check, repo: Repo, fn: Fn) -> None:
             za = [dotted(a) for a in g.iter.args]
             tv = [x.id for x in g.target.elts] if isinstance(g.target, ast.Tuple) else []
             e = gen.elt
-            ok = set(za) == {"old_size", "new_size"} and len(tv) == 2 and isinstance(e, ast.Call) and call_name(e) == "slice" and len(e.args) == 2 \
+            ok = roles.is_size_pair(za) and len(tv) == 2 and isinstance(e, ast.Call) and call_name(e) == "slice" and len(e.args) == 2 \
                 and const_value(e.args[0]) == 0 and isinstance(e.args[1], ast.Call) and call_name(e.args[1]) == "min" and {dotted(a) for a in e.args[1].args} == set(tv)
         ck.ob("C04.1", fn, d if d is not None else n.ast, ok, "the index is slice(0, min(old, new)) in every dimension (zip of both size tuples)")
     # sizes are those of the matching parameters
@@ -209,6 +318,7 @@ def _shrink_slices(ck: Check, repo: Repo, fn: Fn) -> None:
     cfg = CFG(fn.node)
     tb = TermBuilder(repo, fn, cfg=cfg, depth=0)
     old_p, new_p = fn.named_params[0], fn.named_params[1]
+    roles = _Roles(fn)
     sliced = [n for n in cfg.live_nodes() if n.kind == "stmt" and isinstance(n.ast, ast.Assign) and isinstance(n.ast.targets[0], ast.Subscript)]
     ck.floor("C04.2", len(sliced), 2, "sliced copies in shrink_preserve_parameters", fn=fn)
     for n in sliced:
@@ -225,10 +335,13 @@ def _shrink_slices(ck: Check, repo: Repo, fn: Fn) -> None:
                 continue
             defs = cfg.defs_reaching(n, sl.upper.id)
             val = cfg.value_of_def(defs[0], sl.upper.id) if len(defs) == 1 else None
-            okd = okd and isinstance(val, ast.Call) and call_name(val) == "min" and {ast.unparse(a) for a in val.args} == {f"old_size[{k}]", f"new_size[{k}]"}
+            okd = okd and isinstance(val, ast.Call) and call_name(val) == "min" and len(val.args) == 2 and not val.keywords \
+                and all(isinstance(a, ast.Subscript) and isinstance(a.value, ast.Name) and const_value(a.slice) == k for a in val.args) \
+                and roles.is_size_pair([a.value.id for a in val.args])
         ck.ob("C04.2", fn, n.ast, okd, "dimension k is cut at min(old_size[k], new_size[k])", detail=short(t.slice, 60))
         # rank guard: 1-D branch copies one dimension, the other branch two
-        rank1 = any("len(param.data.size()) == 1" in ast.unparse(g) and pol for g, pol, _ in cfg.guards_at(n))
+        rank1 = any(pol and any(isinstance(x, ast.Compare) and len(x.ops) == 1 and isinstance(x.ops[0], ast.Eq) and roles.is_rank_of_param(x.left)
+                                and const_value(x.comparators[0]) == 1 for x in ast.walk(g)) for g, pol, _ in cfg.guards_at(n))
         ck.ob("C04.2", fn, n.ast, (len(dims) == 1) == rank1, "one index for 1-D parameters, two leading indices otherwise")
 
 
@@ -289,17 +402,35 @@ def _sites(ck: Check, repo: Repo) -> None:
 def _reinit(ck: Check, repo: Repo) -> None:
     rf = repo.fn("agilerl.hpo.mutation", "Mutations.reinit_from_mutated")
     loads = [c for c in calls_in(rf.node, nested=True) if last_attr(c) == "load_state_dict"]
-    ok = any(c.args and isinstance(c.args[0], ast.Call) and last_attr(c.args[0]) == "state_dict" and dotted(c.args[0].func.value) == "offspring" and dotted(c.func.value) == "ind_shared" for c in loads)
+    rcfg = CFG(rf.node)
+    # role: the re-created network is whatever local holds self.reinit_module(offspring, ...) (`offspring` is the parameter)
+    rebuilt = lambda v: isinstance(v, ast.Call) and call_name(v) == "self.reinit_module" and bool(v.args) and dotted(v.args[0]) == "offspring"  # noqa: E731
+    ok = any(c.args and isinstance(c.args[0], ast.Call) and last_attr(c.args[0]) == "state_dict" and dotted(c.args[0].func.value) == "offspring"
+             and _receiver_bound_to(rcfg, c, rebuilt) for c in loads)
     ck.ob("C04.4", rf, loads[0] if loads else rf.node, ok, "the re-created shared network loads the state dict of the offspring it was built from")
     strict = [c for c in loads if get_kw(c, "strict") is not None]
     ck.note("C04.4_strict_false", [short(c, 80) for c in strict])
+
+
+def _receiver_bound_to(cfg: CFG, call: ast.Call, pred) -> bool:
+    """The receiver of the method call is a local every reaching definition of which binds it to a value accepted by pred."""
+    recv = call.func.value if isinstance(call.func, ast.Attribute) else None
+    node = cfg.node_of(call)
+    if not isinstance(recv, ast.Name) or node is None:
+        return False
+    defs = cfg.defs_reaching(node, recv.id)
+    return bool(defs) and all(d.kind != "entry" and pred(cfg.value_of_def(d, recv.id)) for d in defs)
 
 
 def _clone(ck: Check, repo: Repo) -> None:
     fn = repo.fn(MB, "EvolvableModule.clone")
     tries = [n for n in walk_no_nested(fn.node) if isinstance(n, ast.Try)]
     loads = [c for c in calls_in(fn.node) if last_attr(c) == "load_state_dict"]
-    ok = len(loads) == 1 and dotted(loads[0].func.value) == "clone" and loads[0].args and ast.unparse(loads[0].args[0]) == "self.state_dict()"
+    ccfg = CFG(fn.node)
+    # role: the clone is whatever local holds the freshly constructed self.__class__(...) / type(self)(...)
+    built = lambda v: isinstance(v, ast.Call) and (call_name(v) == "self.__class__" or (isinstance(v.func, ast.Call) and call_name(v.func) == "type"  # noqa: E731
+                                                                                       and [dotted(a) for a in v.func.args] == ["self"]))
+    ok = len(loads) == 1 and _receiver_bound_to(ccfg, loads[0], built) and loads[0].args and ast.unparse(loads[0].args[0]) == "self.state_dict()"
     ck.ob("C04.5", fn, loads[0] if loads else fn.node, ok, "the clone loads the parent's complete state dict")
     strict = get_kw(loads[0], "strict") if loads else None
     ck.ob("C04.5", fn, loads[0] if loads else fn.node, strict is None or const_value(strict) is True, "the load is strict (every parameter must match)")
@@ -376,4 +507,11 @@ VARIANTS = [
     ("clone-nonstrict", _MB, "            clone.load_state_dict(self.state_dict())\n        except RuntimeError:", "            clone.load_state_dict(self.state_dict(), strict=False)\n        except RuntimeError:", "fire", "C04.5"),
     ("clone-swallow-all", _MB, "            clone.load_state_dict(self.state_dict())\n        except RuntimeError:", "            clone.load_state_dict(self.state_dict())\n        except Exception:", "fire", "C04.5"),
     ("preserve-temp-names-ok", _MB, "                old_param = old_net_dict[key]\n                old_size = old_param.data.size()\n                new_size = param.data.size()\n", "                old_param = old_net_dict[key]\n                new_size = param.data.size()\n                old_size = old_param.data.size()\n", "silent", None),
+]
+VARIANTS += [
+    # the locals are recognised by what they are bound to (roles), so these must behave as before whatever the locals are called
+    ("preserve-new-size-of-old-param", _MB, "                new_size = param.data.size()\n", "                new_size = old_param.data.size()\n", "fire", "C04.1"),
+    ("shrink-rank-via-shape-ok", _CNN, "if len(param.data.size()) == 1:", "if len(param.shape) == 1:", "silent", None),
+    ("clone-loads-into-self", _MB, "            clone.load_state_dict(self.state_dict())\n        except RuntimeError:", "            self.load_state_dict(clone.state_dict())\n        except RuntimeError:", "fire", "C04.5"),
+    ("reinit-loads-into-offspring", "agilerl/hpo/mutation.py", "ind_shared.load_state_dict(offspring.state_dict(), strict=False)", "offspring.load_state_dict(ind_shared.state_dict(), strict=False)", "fire", "C04.4"),
 ]
